@@ -467,6 +467,21 @@ pub fn check(case: &Case, ctx: &mut CaseCtx) {
             } else {
                 svc_addrs.contains(&ip) && ip_k(&ip) == Some(k) && h.2.table.iter().any(|x| x.k == k && x.up && x.v6 == ip.is_ipv6())
             };
+            // the recorded finding: a probe that was under way when the interface lost the address
+            // family goes on carrying the address (for the two or three probes that are left)
+            let stale_probe = !ok
+                && !case.auto
+                && !m.is_response()
+                && svc_addrs.contains(&ip)
+                && ip_k(&ip) == Some(k)
+                && hist.iter().enumerate().any(|(i, hh)| hh.2.table.iter().any(|x| x.k == k && x.up && x.v6 == ip.is_ipv6()) && hist.get(i + 1).is_some_and(|nx| nx.1 + 2000 >= e.t));
+            if stale_probe {
+                ctx.violation(
+                    "C18/address-of-another-link/in-a-probe-under-way-when-the-address-family-went-away",
+                    format!("at +{} ms the probe on {} ({}) still carries {} although the interface lost its last address of that family less than 2 s before\n{}", e.t - T0, if_name(k), if v6 { "IPv6" } else { "IPv4" }, ip, detail()),
+                );
+                continue;
+            }
             if !ok {
                 fail!(
                     "C18/address-of-another-link",
